@@ -25,11 +25,11 @@ import (
 )
 
 func init() {
-	chk.Register(&chk.Check{ID: "C04", Run: func(r *chk.Run) { RunScaleRetry(r, "C04") }, Replay: replayScaleE1})
-	chk.Register(&chk.Check{ID: "C07", Run: func(r *chk.Run) { RunScaleRetry(r, "C07"); RunNested(r) }, Replay: replayScaleE1})
-	chk.Register(&chk.Check{ID: "C05", Run: func(r *chk.Run) { RunBacklogTeardown(r); RunNested(r) }, Replay: replayScaleE1})
-	chk.Register(&chk.Check{ID: "C06", Run: RunSchemaLookupFails, Replay: replayScaleE1})
-	chk.Register(&chk.Check{ID: "C08", Run: RunScaleKept, Replay: replayScaleE1})
+	chk.Register(&chk.Check{ID: "C04", Run: func(r *chk.Run) { RunTwoStreamsFirst(r); RunScaleRetry(r, "C04") }, Replay: replayScaleE1})
+	chk.Register(&chk.Check{ID: "C07", Run: func(r *chk.Run) { RunTwoStreamsFirst(r); RunScaleRetry(r, "C07") }, Replay: replayScaleE1})
+	chk.Register(&chk.Check{ID: "C05", Run: func(r *chk.Run) { RunTwoStreamsFirst(r); RunBacklogTeardown(r) }, Replay: replayScaleE1})
+	chk.Register(&chk.Check{ID: "C06", Run: func(r *chk.Run) { RunTwoStreamsFirst(r); RunSchemaLookupFails(r) }, Replay: replayScaleE1})
+	chk.Register(&chk.Check{ID: "C08", Run: func(r *chk.Run) { RunTwoStreamsFirst(r); RunScaleKept(r) }, Replay: replayScaleE1})
 }
 
 func replayScaleE1(kind string, input json.RawMessage) (bool, string) {
